@@ -75,6 +75,12 @@ fn gen_program(seed: u64, i: u64, corpus: &Corpus) -> (String, Project, String) 
     }
     return (format!("rejected variant of pgen seed {pseed} ({edits} edits)"), p, g.entry);
   }
+  if i % 3 == 1 {
+    // two entry points, the first one's main reachable from the second
+    p.modules.push(("multi.Helper".into(), format!("import {{ Main }} from {}\nclass Helper {{ function run(): unit = Main.main() }}\n", g.entry)));
+    p.modules.push(("multi.Second".into(), "import { Helper } from multi.Helper\nclass Main { function main(): unit = { Helper.run(); Process.println(\"second entry point\"); } }\n".into()));
+    return (format!("pgen seed {pseed} with a second entry point"), p, g.entry);
+  }
   (format!("pgen seed {pseed}"), p, g.entry)
 }
 
@@ -96,7 +102,13 @@ fn one(seed: u64, i: u64, perm: u64) {
     handles.insert(front::mod_ref(&mut heap, n), t.clone());
   }
   let entry_ref = front::mod_ref(&mut heap, &entry);
-  let r = pool::catch(AssertUnwindSafe(|| samlang_compiler::compile_sources(&mut heap, handles, vec![entry_ref], false)));
+  let mut entries = vec![entry_ref];
+  if project.modules.iter().any(|m| m.0 == "multi.Second") {
+    let second = front::mod_ref(&mut heap, "multi.Second");
+    // the list of entry points is part of the input: same order in every process
+    entries.push(second);
+  }
+  let r = pool::catch(AssertUnwindSafe(|| samlang_compiler::compile_sources(&mut heap, handles, entries, false)));
   let v = match r {
     Err(e) => json!({"panic": e}),
     Ok(Err(diag)) => json!({"verdict": "rejected", "diag": diag}),
